@@ -343,7 +343,8 @@ func (s MsgServer) UnbondedOracle(c context.Context, msg *types.MsgUnbondedOracl
 	s.DelOracleAddrByExternalAddr(ctx, oracle.ExternalAddress)
 	s.DelOracleAddrByBridgerAddr(ctx, oracle.GetBridger())
 	s.DelOracle(ctx, oracle.GetOracle())
-	s.DelLastEventNonceByOracle(ctx, oracleAddr)
+	// LastEventNonceByOracle is kept on purpose: deleting it lets an oracle that bonds again fall back to
+	// lastObserved-1 and vote a second time for a nonce it already voted on (Attest does not de-duplicate votes)
 
 	return &types.MsgUnbondedOracleResponse{}, nil
 }
